@@ -5,26 +5,27 @@ VERIF = os.path.dirname(os.path.dirname(os.path.abspath(__file__)))
 
 E2 = 'mir2smt'
 MC = 'model_checking'
-TECH = 'symbolic execution of rustc MIR (-Zunpretty=mir, regenerated from the working tree) into SMT-LIB (Seq/String/Int/UF); verdicts by cvc5 1.0.3 / z3 4.8.12 / z3 5.1.0; counterexamples replayed natively'
+TECH = 'symbolic execution of rustc MIR (-Zunpretty=mir, regenerated from the working tree) into SMT-LIB (Seq/String/Int/UF); verdicts by cvc5 1.0.3 / z3 4.8.12 / z3 5.1.0; a crate function whose body cannot be encoded is over-approximated by "any value of its type, or a panic" (unsat stays sound, sat is a candidate); every counterexample is replayed natively (the model first, then fixed input families) and only a reproduced one is reported'
+K3T = '; Kani 0.68 leaf harness K3 for the footer comparison (constant_time_equals == (base64url(footer) == segment), panic-free, on the compiled code)'
 NOTE = 'Trusted: the MIR dump is the semantics of the source; contracts of vf/coremodel.py for std/base64/RustCrypto/ring/ed25519-dalek/p384 calls; primitives are ideal functionalities (collision-free MAC/KDF/hash, ideal stream cipher/AEAD/signatures, F_MAC/F_SIG/INT-CTXT unforgeability); strings and byte strings of any length below 2^40.'
 CLAIMED = {
     'C01': dict(engine=E2, cat=MC, ref='DESIGN.md 4, 6 (C01)', technique=TECH, note=NOTE,
                 text='For each of the four local protocols the real MIR of try_encrypt and try_decrypt (every crate function they reach inlined) is executed on a symbolic key, nonce, message, footer and assertion of unbounded length; every decrypt path on the produced token is shown infeasible unless it returns exactly the message. Decides the wiring (offsets, PAE, key split, token format) for all inputs; the primitives themselves are ideal.'),
     'C02': dict(engine=E2, cat=MC, ref='DESIGN.md 6 (C02)', technique=TECH, note=NOTE,
                 text='Same as C01 for try_sign / try_verify of the four public protocols with ideal signature functionalities, plus the V3 public-key constructor (every compressed point with tag 0x02/0x03 is accepted, bytes kept).'),
-    'C03': dict(engine=E2, cat=MC, ref='DESIGN.md 6 (C03)', technique=TECH, note=NOTE,
+    'C03': dict(engine=E2, cat=MC, ref='DESIGN.md 6 (C03), 11.2', technique=TECH + K3T, note=NOTE,
                 text='Adversary queries per protocol: the authentic token is produced by the real try_encrypt/try_sign MIR; the attacker presents header||b64(P\')[||"."||segment] with P\' ANY byte string and segment any dot-free text; every accepting path of the real try_decrypt/try_verify MIR must force the token to be the authentic one (modulo an empty footer segment / the signature encoding) and return the original message; no path may end in a UTF-8 error; a text-level query shows accepted token strings have exactly that shape (3 or 4 segments).'),
     'C04': dict(engine=E2, cat=MC, ref='DESIGN.md 6 (C04)', technique=TECH, note=NOTE,
                 text='The authentic token (from the real MIR) is parsed under a fresh symbolic key K\'; every accepting path must force K\' = K (for all 8 protocols). A key split that drops key bytes makes two keys indistinguishable to the uninterpreted primitives and the query satisfiable.'),
-    'C05': dict(engine=E2, cat=MC, ref='DESIGN.md 6 (C05)', technique=TECH, note=NOTE,
-                text='Build with footer F (Some/None), parse with a fresh F\' (Some/None): acceptance forces F\' == F (absent == empty); the 4th segment of every produced token is b64url(F) and exists iff F is non-empty; arbitrary edits of the footer segment are covered by the C03 tamper queries re-run here.'),
+    'C05': dict(engine=E2, cat=MC, ref='DESIGN.md 6 (C05), 11.2', technique=TECH + K3T, note=NOTE,
+                text='Build with footer F (Some/None), parse with a fresh F\' (Some/None): acceptance forces F\' == F (absent == empty); the 4th segment of every produced token is b64url(F) and exists iff F is non-empty; arbitrary edits of the footer segment are covered by the C03 tamper queries re-run here; the comparison itself is model-checked on the compiled code (K3); Footer::from / set_footer / builder() / Clone are executed from MIR (the footer the caller writes is the footer that reaches the entry point).'),
     'C06': dict(engine=E2, cat=MC, ref='DESIGN.md 6 (C06)', technique=TECH, note=NOTE,
                 text='v3/v4 local/public: build with assertion A, parse with fresh A\' (with the footer symbolic too, so shifted field boundaries are inside the query): acceptance forces A\' == A; the assertion reaches the token term only underneath MAC/signature applications and the payload length / footer segment do not depend on it.'),
     'C07': dict(engine=E2, cat=MC, ref='DESIGN.md 6 (C07)', technique=TECH, note=NOTE,
                 text='Verbatim: on the real MIR of each of the 8 entry points with an arbitrary token string, no path gets past the header check when the text starts with another protocol\'s header. Relabelled: the payload produced by X\'s real MIR under header Y is never accepted by Y\'s real MIR under the same key bytes (24 same-purpose ordered pairs quick, all 56 thorough).'),
     'C08': dict(engine=E2, cat=MC, ref='DESIGN.md 6 (C08)', technique=TECH + '; Kani 0.68 leaf harness for le64', note=NOTE + ' The SMT transcription of the specification in vf/props/c08.py; its native twin (replay/src/spec.rs) reproduces 45 official vectors.',
                 text='Differential: the token term produced by the real MIR equals the specification token written as an SMT term over the same ideal primitives (collision-free, so equality forces equal arguments at every primitive call), the specification token is decrypted/verified by the real MIR, the footer segment exists iff the footer is non-empty; le64 (summarised in the SMT runs) is checked bit-precisely on the compiled code by Kani for all 2^64 inputs.'),
-    'C09': dict(engine=E2, cat=MC, ref='DESIGN.md 6 (C09)', technique=TECH, note=NOTE + ' Panic conditions of std calls as documented (range index, split_at, copy_from_slice, unwrap/expect, str slicing at non-char-boundaries).',
+    'C09': dict(engine=E2, cat=MC, ref='DESIGN.md 6 (C09), 11.2', technique=TECH + K3T + '; K4 (Key hex constructor) in the thorough tier', note=NOTE + ' Panic conditions of std calls as documented (range index, split_at, copy_from_slice, unwrap/expect, str slicing at non-char-boundaries).',
                 text='Every panic site (MIR assert terminators for overflow/bounds, panicking std contracts) reachable from the 8 core entry points with an ARBITRARY token string (segments case-split 1,2,3,4,>=5; decoded payload of any length) and from Key::<N>::try_from(&str) is shown unreachable by the solver; thorough repeats with overflow checks off (release semantics).'),
     'C11': dict(engine=E2, cat=MC, ref='DESIGN.md 6 (C11/C12)', technique=TECH, note='Trusted: MIR dump; serde_json::Value as an algebraic datatype; time::OffsetDateTime::parse(&Rfc3339) as an uninterpreted partial function to (instant, offset), now_utc() an arbitrary instant; which strings `time` accepts is outside the claim.',
                 text='PasetoParser::default() is executed from its MIR (registering the real exp/nbf closures), then verify_claims runs on a symbolic payload: an accepting path forces exp to be absent/null or an RFC 3339 string whose instant is after the clock reading; a rejection inside the exp validator is justified by the value; the validator receives payload["exp"]. Any JSON value (numbers, arrays, objects, booleans, empty string) is inside the query.'),
@@ -75,7 +76,7 @@ def main():
         'engines': [
             {'name': 'mir2smt', 'path': 'vf/', 'serves_properties': [p for p in props if 'mir2smt' in CLAIMED.get(p, {}).get('engine', '')],
              'kind_free_text': 'symbolic executor for rustc MIR text -> SMT-LIB (Seq/String/Int/UF/datatypes), decided by cvc5 1.0.3, z3 4.8.12, z3 5.1.0; native replay through replay/ (verif-replay)'},
-            {'name': 'kani-leaf', 'path': 'vf/kani.py', 'serves_properties': ['C08', 'C18'], 'kind_free_text': 'Kani 0.68 / CBMC 6.11 harnesses on a scratch overlay of the working tree (le64, CustomClaim constructors)'},
+            {'name': 'kani-leaf', 'path': 'vf/kani.py', 'serves_properties': ['C03', 'C05', 'C08', 'C09', 'C18'], 'kind_free_text': 'Kani 0.68 / CBMC 6.11 harnesses on a scratch overlay of the working tree (K1 le64, K2 PAE, K3 footer comparison, K4 key hex constructor, K5 CustomClaim constructors); a SUCCESSFUL verdict is re-used for a tree with the same content hash'},
             {'name': 'typelevel', 'path': 'vf/props/c19.py', 'serves_properties': ['C19'], 'kind_free_text': 'rustdoc JSON impl headers -> SMT over finite sorts; rustc judges proposed programs'},
             {'name': 'featuresat', 'path': 'vf/props/c20.py', 'serves_properties': ['C20'], 'kind_free_text': 'Cargo feature graph + cfg presence conditions -> SAT; cargo check judges proposed configurations'},
         ],
